@@ -1,6 +1,7 @@
 CONSTANTS
   AsIs_D10 = FALSE
+  Mut_NilFailedEvent = FALSE
 SPECIFICATION Spec
-INVARIANTS TypeOK NoPanic Outcome Reported Emit
+INVARIANTS TypeOK NoPanic Outcome Reported AllPrintable Emit
 PROPERTY Terminates
 CHECK_DEADLOCK FALSE
